@@ -5,7 +5,7 @@ from fractions import Fraction
 
 import numpy as np
 
-RULE = ('table metrics (X of shape (n,1) holds frame ids, metric(X,y)=D[X[:,0],y[0]]) with small-integer '
+RULE = ('[audit families: n>256 with up to n centers (model in the loop), n=70000 (oracle only), scale 2^-30/2^30, near-tie and all-tie tables, Fortran/strided data, int/float32 id dtypes, int8/int16 kernels, init_centers as list/tuple/view, positional arguments, md.Trajectory+rmsd (tolerance oracle), result fed back as init_centers / repeated calls on the same objects] table metrics (X of shape (n,1) holds frame ids, metric(X,y)=D[X[:,0],y[0]]) with small-integer '
         'entries: shortest-path closures of random weighted graphs, L1 on small grids (with and without '
         'duplicate points), points on a line, and arbitrary integer tables (asymmetric, non-zero diagonal) '
         'for the claims that need no metric; plus the compiled euclidean/manhattan kernels on small-integer '
@@ -75,6 +75,15 @@ def gen_table(rng, m, kind):
     if kind == 'line':
         P = rng.permutation(2 * m + 1)[:m].astype(np.int64)
         return np.abs(P[:, None] - P[None, :])
+    if kind == 'nearline':
+        # positions differ by a relative ~1e-6: near-ties that are not ties (and some that are)
+        P = (rng.permutation(2 * m + 1)[:m].astype(np.int64) // 2) * (1 << 20) + rng.integers(0, 3, size=m)
+        return np.abs(P[:, None] - P[None, :])
+    if kind == 'const':
+        # all frames equidistant (or all identical when c = 0): every choice is a tie
+        T = np.full((m, m), int(rng.integers(0, 3)), dtype=np.int64)
+        np.fill_diagonal(T, 0)
+        return T
     if kind == 'arbitrary':
         T = rng.integers(0, 5, size=(m, m)).astype(np.int64)
         if rng.random() < 0.5:
@@ -86,6 +95,12 @@ def gen_table(rng, m, kind):
 def is_metric(D):
     """symmetric + triangle inequality, checked exactly (D holds ints or Fractions)"""
     m = len(D)
+    if m and all(isinstance(x, (int, np.integer)) or (isinstance(x, Fraction) and x.denominator == 1)
+                 for row in D for x in row):
+        A = np.array([[int(x) for x in row] for row in D], dtype=np.int64)     # exact
+        if A.shape[0] != A.shape[1] or (A != A.T).any():
+            return False
+        return all(((A[:, [j]] + A[[j], :]) >= A).all() for j in range(m))
     for i in range(m):
         for j in range(m):
             if D[i][j] != D[j][i]:
@@ -121,7 +136,8 @@ def radii_of(D, n, centers):
 
 
 def gen_case(rng, big=False, kind=None):
-    kind = kind or ['graph', 'grid', 'grid-dup', 'line', 'arbitrary'][int(rng.integers(0, 5))]
+    kind = kind or ['graph', 'grid', 'grid-dup', 'line', 'arbitrary', 'nearline', 'const'][
+        int(rng.integers(0, 7))]
     r = rng.random()
     if big:
         n = int(rng.integers(10, 31))
@@ -187,8 +203,63 @@ def gen_case(rng, big=False, kind=None):
         ncl = int(rng.integers(0, n + 3))
     tri = bool(rng.random() < 0.5)
     rf = bool(rng.random() < 0.02)
-    return {'kind': kind, 'n': n, 'table': table, 'full': full, 'n_clusters': ncl, 'cutoff': cutoff,
+    case = {'kind': kind, 'n': n, 'table': table, 'full': full, 'n_clusters': ncl, 'cutoff': cutoff,
             'init': init, 'tri': tri, 'random_first': rf, 'via': 'function', 'metric': 'table'}
+    case.update(gen_variant(rng))
+    return case
+
+
+def gen_variant(rng, kernel=False):
+    """how the same call is presented: scale, memory layout / dtype of the data, container of the supplied
+    centers, positional vs keyword arguments"""
+    v = {}
+    r = rng.random()
+    if not kernel and r < 0.3:
+        v['scale_exp'] = [-30, 30][int(rng.integers(0, 2))]          # ~1e-9 / ~1e+9, exact
+    r = rng.random()
+    if r < 0.3:
+        v['layout'] = ['F', 'strided'][int(rng.integers(0, 2))]
+    r = rng.random()
+    if not kernel and r < 0.3:
+        v['xdtype'] = ['int64', 'int32', 'float32'][int(rng.integers(0, 3))]
+    r = rng.random()
+    if r < 0.5:
+        v['init_container'] = ['list-of-arrays', 'list-of-lists', 'tuple', 'view'][int(rng.integers(0, 4))]
+    if rng.random() < 0.2:
+        v['positional'] = True
+    return v
+
+
+def gen_big_case(rng, i=0):
+    """more than 256 frames and up to more than 255 centers (labels / indices beyond one byte)"""
+    n = int([257, 300, 330, 400][int(rng.integers(0, 4))])
+    kind = ['line', 'grid', 'nearline'][i % 3]
+    if kind == 'grid':
+        cells = [(a, b) for a in range(21) for b in range(21)]
+        idx = rng.permutation(len(cells))[:n]
+        P = np.array([cells[i] for i in idx], dtype=np.int64)
+        T = np.abs(P[:, None, :] - P[None, :, :]).sum(axis=2)
+    else:
+        T = gen_table(rng, n, kind)
+    r = rng.random()
+    ncl = [256, 257, 300, n - 1, n, n + 1][int(rng.integers(0, 6))]
+    cutoff = OMIT if r < 0.7 else [int(rng.integers(1, 4)), 1]
+    init = None
+    if i % 2 == 1:
+        init = [int(x) for x in rng.permutation(n)[:int(rng.integers(1, 4))]]
+        if i % 4 == 1:
+            init = [int(x) for x in sorted(rng.integers(256, n, size=2))]     # labels of frames > 255
+            if init[0] == init[1]:
+                init = init[:1]
+    case = {'kind': 'big-' + kind, 'n': n, 'table': [[int(x) for x in row] for row in T], 'full': None,
+            'n_clusters': int(ncl), 'cutoff': cutoff, 'init': init, 'tri': bool(rng.random() < 0.5),
+            'random_first': False, 'via': 'function' if i % 4 != 3 else 'class', 'metric': 'table'}
+    if case['via'] == 'class':
+        case['tri'] = False
+        if case['cutoff'] == OMIT:
+            case['cutoff'] = None
+    case.update(gen_variant(rng))
+    return case
 
 
 def gen_offdata_case(rng):
@@ -222,7 +293,7 @@ def gen_kernel_case(rng):
     side = 10 if d == 1 else 4
     cells = list(itertools.product(range(side), repeat=d))
     pts = np.array([cells[i] for i in rng.permutation(len(cells))[:n]]).reshape(n, d)   # distinct points
-    dtype = ['float64', 'float32', 'int32', 'int64'][int(rng.integers(0, 4))]
+    dtype = ['float64', 'float32', 'int32', 'int64', 'int16', 'int8'][int(rng.integers(0, 6))]
     metric = ['euclidean', 'manhattan'][int(rng.integers(0, 2))]
     r = rng.random()
     ncl = OMIT if r < 0.2 else (None if r < 0.3 else int(rng.integers(1, n + 2)))
@@ -231,44 +302,126 @@ def gen_kernel_case(rng):
     init = None
     if rng.random() < 0.3:
         init = [int(x) for x in rng.permutation(n)[:int(rng.integers(1, min(n, 3) + 1))]]
-    return {'kind': 'kernel-' + metric, 'n': n, 'points': pts.tolist(), 'dtype': dtype, 'metric': metric,
+    case = {'kind': 'kernel-' + metric, 'n': n, 'points': pts.tolist(), 'dtype': dtype, 'metric': metric,
             'n_clusters': ncl, 'cutoff': cutoff, 'init': init, 'tri': bool(rng.random() < 0.5),
             'random_first': False, 'via': 'function'}
+    case.update(gen_variant(rng, kernel=True))
+    if rng.random() < 0.3:
+        # coordinates at ~1e+9 / ~1e-9 (floats only; the table the model sees is the kernel's own output)
+        e = [-30, 30][int(rng.integers(0, 2))]
+        if dtype in ('float64',) or (dtype == 'float32' and e == 30):
+            case['points'] = (pts.astype(float) * 2.0 ** e).tolist()
+            if cutoff not in (OMIT, None):
+                case['scale_exp'] = e
+    return case
 
 
 # ----------------------------------------------------------------------------- running the real code
 
-def cutoff_value(c):
+def scale_of(case):
+    """tables and value cutoffs are multiplied by 2**scale_exp (exact in float64 and in the rationals)"""
+    return Fraction(2) ** int(case.get('scale_exp', 0))
+
+
+def exact_cutoff(case):
+    """OMIT | None | 'inf' | Fraction (scaled)"""
+    c = case['cutoff']
+    if c in (OMIT, None, 'inf'):
+        return c
+    return Fraction(c[0], c[1]) * scale_of(case)
+
+
+def cutoff_value(case):
+    c = exact_cutoff(case)
     if c == 'inf':
         return float('inf')
     if c is None:
         return None
-    return c[0] / c[1]
+    return float(c)       # dyadic, exact
 
 
-def real_run(case, tri=None, via=None):
-    """returns {'ok': {...}} | {'error': kind} | {'hang': True}; also checks that inputs are unchanged"""
-    from enspara.cluster import kcenters as kc
+def exact_table(case):
+    sc = scale_of(case)
+    if sc == 1:
+        return case['table']              # integers
+    return [[x * sc for x in row] for row in case['table']]
+
+
+def wrap_init(arr, how, X, ids):
+    """the supplied centers in different containers (rows are what the metric sees)"""
+    if how == 'list-of-arrays':
+        return [np.array(r) for r in arr]
+    if how == 'list-of-lists':
+        return [list(r) for r in arr.tolist()]
+    if how == 'tuple':
+        return tuple(np.array(r) for r in arr)
+    if how == 'view' and ids and ids == list(range(ids[0], ids[0] + len(ids))) and ids[-1] < len(X):
+        return X[ids[0]:ids[0] + len(ids)]          # aliases the data
+    return arr
+
+
+def layout(X, how):
+    if how == 'F':
+        return np.asfortranarray(X)
+    if how == 'strided':
+        big = np.repeat(X, 2, axis=0)
+        big[1::2] = -7                                # rows that must never be read
+        return big[::2]
+    return X
+
+
+def snapshot(obj):
+    """bytes of an argument, whatever container it is"""
+    if obj is None:
+        return None
+    if isinstance(obj, np.ndarray):
+        return ('a', obj.shape, obj.tobytes())
+    return (type(obj).__name__, len(obj),
+            tuple(r.xyz.tobytes() if hasattr(r, 'xyz') else np.asarray(r).tobytes() for r in obj))
+
+
+def md_traj(case):
+    """small random md.Trajectory (float32 coordinates), deterministic in case['seed']"""
+    import mdtraj as md
+    r = np.random.default_rng(int(case['seed']))
+    n, a = case['n'], case['atoms']
+    xyz = r.integers(-8, 9, size=(n, a, 3)).astype(np.float32) / 4
+    top = md.Topology()
+    res = top.add_residue('ALA', top.add_chain())
+    for i in range(a):
+        top.add_atom('C%d' % i, md.element.carbon, res)
+    return md.Trajectory(xyz, top)
+
+
+def build_inputs(case):
+    """(X, metric, init, ids, raw bytes of X) for one case"""
     n = case['n']
-    tri = case['tri'] if tri is None else tri
-    via = via or case.get('via', 'function')
     if case['metric'] == 'table':
         # rows of ids outside the data exist only for the off-data generator (the code as it is never asks
         # for them: it measures frames against centers, never a supplied center against something)
         T = (np.array(case['full'], dtype=float) if case.get('full')
              else np.array(case['table'], dtype=float).reshape(n, -1) if n else np.zeros((0, 0)))
-        X = np.arange(n, dtype=float).reshape(n, 1)
+        T = T * float(scale_of(case))
+        xdt = case.get('xdtype', 'float64')
+        X = layout(np.arange(n, dtype=xdt).reshape(n, 1), case.get('layout', 'C'))
         limit = [0, 6 * (n + len(case['init'] or [])) + 60]
 
         def metric(A, y):
             limit[0] += 1
             if limit[0] > limit[1]:
                 raise TooManyCalls()
-            return T[A[:, 0].astype(int), int(y[0])].astype(float)
-        init = None if case['init'] is None else np.array(case['init'], dtype=float).reshape(-1, 1)
+            return T[np.asarray(A)[:, 0].astype(int), int(y[0])].astype(float)
+        metric.limit = limit
+        init = None if case['init'] is None else np.array(case['init'], dtype=xdt).reshape(-1, 1)
         ids = lambda c: int(c[0])  # noqa
+    elif case['metric'] == 'rmsd':
+        X = md_traj(case)
+        metric = 'rmsd'
+        init = None if case['init'] is None else [X[i] for i in case['init']]
+        keys = {X.xyz[i].tobytes(): i for i in reversed(range(n))}
+        ids = lambda c: keys[c.xyz[0].tobytes()]  # noqa
     else:
-        X = np.array(case['points'], dtype=case['dtype']).reshape(n, -1)
+        X = layout(np.array(case['points'], dtype=case['dtype']).reshape(n, -1), case.get('layout', 'C'))
         metric = case['metric']
         if not isinstance(case['n_clusters'], int):
             # no finite n_clusters: guard the loop against a broken stopping rule (it would never return)
@@ -281,22 +434,50 @@ def real_run(case, tri=None, via=None):
                 if klimit[0] > klimit[1]:
                     raise TooManyCalls()
                 return kernel(A, y)
-        init = None if case['init'] is None else X[case['init']].copy()
+        init = None if case['init'] is None else np.ascontiguousarray(X[case['init']])
         rows = {tuple(r): i for i, r in reversed(list(enumerate(X.tolist())))}
         ids = lambda c: rows[tuple(np.asarray(c).tolist())]  # noqa
+    return X, metric, init, ids
+
+
+def xbytes(X):
+    return X.xyz.tobytes() if hasattr(X, 'xyz') else X.tobytes()
+
+
+def real_run(case, tri=None, via=None):
+    """returns {'ok': {...}} | {'error': kind} | {'hang': True}; also checks that inputs are unchanged"""
+    from enspara.cluster import kcenters as kc
+    n = case['n']
+    tri = case['tri'] if tri is None else tri
+    via = via or case.get('via', 'function')
+    X, metric, init, ids = build_inputs(case)
+    how = case.get('init_container', 'array')
+    if init is not None and how != 'array' and case['metric'] != 'rmsd':
+        if how == 'list-of-lists' and case['metric'] != 'table':
+            how = 'list-of-arrays'                    # the compiled kernels need ndarray rows
+        init = wrap_init(init, how, X, case['init'])
     kwargs = {}
     if case['n_clusters'] != OMIT:
         kwargs['n_clusters'] = float('inf') if case['n_clusters'] == 'inf' else case['n_clusters']
     if case['cutoff'] != OMIT:
-        kwargs['dist_cutoff'] = cutoff_value(case['cutoff'])
-    x0 = X.tobytes()
-    i0 = None if init is None else init.tobytes()
+        kwargs['dist_cutoff'] = cutoff_value(case)
+    x0 = xbytes(X)
+    i0 = snapshot(init)
     try:
         if via == 'class':
-            est = kc.KCenters(metric, n_clusters=kwargs.get('n_clusters'),
-                              cluster_radius=kwargs.get('dist_cutoff'))
-            est.fit(X, init_centers=init)
+            if case.get('positional'):
+                est = kc.KCenters(metric, kwargs.get('n_clusters'), kwargs.get('dist_cutoff'),
+                                  case.get('random_first', False))
+                est.fit(X, init)
+            else:
+                est = kc.KCenters(metric, n_clusters=kwargs.get('n_clusters'),
+                                  cluster_radius=kwargs.get('dist_cutoff'),
+                                  random_first_center=case.get('random_first', False))
+                est.fit(X, init_centers=init)
             res = est.result_
+        elif case.get('positional') and 'n_clusters' in kwargs and 'dist_cutoff' in kwargs:
+            res = kc.kcenters(X, metric, kwargs['n_clusters'], kwargs['dist_cutoff'], init,
+                              case.get('random_first', False), tri, False)
         else:
             res = kc.kcenters(X, metric, init_centers=init, use_triangle_inequality=tri,
                               random_first_center=case.get('random_first', False), **kwargs)
@@ -305,7 +486,7 @@ def real_run(case, tri=None, via=None):
     except Exception as e:  # noqa
         name = type(e).__name__
         return {'error': ERRS.get(name, 'other:' + name)}
-    if X.tobytes() != x0 or (init is not None and init.tobytes() != i0):
+    if xbytes(X) != x0 or snapshot(init) != i0:
         return {'error': 'other:input-modified'}
     dist = [None if np.isinf(x) else float(x) for x in np.asarray(res.distances, dtype=float)]
     return {'ok': {'center_indices': [int(i) for i in res.center_indices],
@@ -318,7 +499,11 @@ def kernel_table(case):
     from enspara.cluster import util
     f = util._get_distance_method(case['metric'])
     n = case['n']
-    X = np.array(case['points'], dtype=case['dtype']).reshape(n, -1)
+    if case['metric'] == 'rmsd':
+        X = md_traj(case)
+        cols = [np.asarray(f(X, X[c]), dtype=float) for c in range(n)]
+        return [[Fraction(float(cols[c][r])) for c in range(n)] for r in range(n)]
+    X = layout(np.array(case['points'], dtype=case['dtype']).reshape(n, -1), case.get('layout', 'C'))
     cols = [np.asarray(f(X, X[c]), dtype=float) for c in range(n)]
     return [[Fraction(float(cols[c][r])) for c in range(n)] for r in range(n)]
 
@@ -331,8 +516,8 @@ def model_request(case, table, tri=None, fuel=None):
           'random_first': case.get('random_first', False)}
     nc = case['n_clusters']
     rq['n_clusters'] = 'npinf' if nc == OMIT else nc
-    c = case['cutoff']
-    rq['cutoff'] = [0, 1] if c == OMIT else c
+    c = exact_cutoff(case)
+    rq['cutoff'] = [0, 1] if c == OMIT else ([c.numerator, c.denominator] if isinstance(c, Fraction) else c)
     if fuel is not None:
         rq['fuel'] = fuel
     return rq
@@ -343,16 +528,12 @@ def model_request(case, table, tri=None, fuel=None):
 def eff_criteria(case):
     """what the property text calls the requested number of centers / requested cutoff
     (None = no bound); returns None when the call is rejected as unconfigured"""
-    nc, cut = case['n_clusters'], case['cutoff']
+    nc, cut = case['n_clusters'], exact_cutoff(case)
     k = None if nc in (OMIT, None, 'inf') else nc
-    if cut in (OMIT,):
+    if cut == OMIT or cut is None:
         c = Fraction(0)
-    elif cut is None:
-        c = Fraction(0)
-    elif cut == 'inf':
-        c = 'inf'
     else:
-        c = Fraction(cut[0], cut[1])
+        c = cut           # 'inf' or Fraction
     return k, c
 
 
@@ -502,17 +683,29 @@ def compare_model(ctx, case, real, model, what):
     return True
 
 
-def process(ctx, case, model=None):
+def table_of(case):
+    return exact_table(case) if case['metric'] == 'table' else kernel_table(case)
+
+
+def fuel_of(case):
+    return 4 * case['n'] + 12 if case['n_clusters'] in (OMIT, None, 'inf') else None
+
+
+def process_batch(ctx, cases):
+    """one driver call for many cases"""
+    tables = [table_of(c) for c in cases]
+    resp = ctx.driver([model_request(c, t, fuel=fuel_of(c)) for c, t in zip(cases, tables)])
+    for c, t, r in zip(cases, tables, resp):
+        process(ctx, c, r, t)
+
+
+def process(ctx, case, model=None, table=None):
     """one case end to end; `model` = driver response if already available"""
     n = case['n']
-    if case['metric'] == 'table':
-        table = [[Fraction(x) for x in row] for row in case['table']]
-    else:
-        table = kernel_table(case)
-    need_fuel = case['n_clusters'] in (OMIT, None, 'inf')
-    fuel = 4 * n + 12 if need_fuel else None
+    if table is None:
+        table = table_of(case)
     if model is None:
-        model = ctx.driver([model_request(case, table, fuel=fuel)])[0]
+        model = ctx.driver([model_request(case, table, fuel=fuel_of(case))])[0]
     tags = [case['kind'], 'tri' if case['tri'] else 'plain',
             'cold' if case['init'] is None else 'warm', 'via-' + case['via'],
             'ncl=' + ('omit' if case['n_clusters'] == OMIT else
@@ -521,7 +714,14 @@ def process(ctx, case, model=None):
             'cut=' + ('omit' if case['cutoff'] == OMIT else
                       'None' if case['cutoff'] is None else
                       'inf' if case['cutoff'] == 'inf' else 'val'),
-            'n=%s' % (n if n <= 3 else '4-9' if n <= 9 else '10+')]
+            'n=%s' % (n if n <= 3 else '4-9' if n <= 9 else '10-255' if n <= 255 else '256+')]
+    for key in ('scale_exp', 'layout', 'xdtype', 'init_container'):
+        if key in case and (key != 'init_container' or case['init'] is not None):
+            tags.append('%s=%s' % (key, case[key]))
+    if case.get('positional'):
+        tags.append('positional-args')
+    if case['metric'] not in ('table', 'rmsd'):
+        tags.append('dtype=' + case['dtype'])
     if model.get('error') == 'out-of-fuel':
         ctx.case(case, nontrivial=False, tags=tags + ['model-diverges(not-run)'])
         ctx.skip('model predicts an endless loop (n_clusters infinite, radius never <= cutoff)')
@@ -557,7 +757,7 @@ def real_predicates(ctx, case, table, real):
     rows = table
     idsn = range(n)
     # hypotheses of the metric-dependent claims, checked exactly on the table the code saw
-    square = [r[:n] for r in rows]
+    square = [r[:n] for r in (case['table'] if case['metric'] == 'table' else rows)]   # scale-free
     metric_ok = is_metric(square) and all((c < n) for c in (case['init'] or []))
     sep_ok = separated(square, idsn)
     if case['init'] is not None and not (sep_ok and len(set(case['init'])) == len(case['init'])
@@ -593,8 +793,192 @@ def real_predicates(ctx, case, table, real):
             return
 
 
+def reuse_check(ctx, case):
+    try:
+        return _reuse_check(ctx, case)
+    except Exception as e:  # noqa
+        ctx.violation('kcenters raised %s (%s) in the object-reuse scenario' % (type(e).__name__, e),
+                      dict(case, family='reuse'))
+
+
+def _reuse_check(ctx, case):
+    """call history: a result fed back as init_centers (the very list object that was returned), the same
+    argument objects used for several calls; earlier results and arguments must stay what they were, repeated
+    calls must agree, and continuing from k1 centers must give the farthest-first sequence of a cold run"""
+    from enspara.cluster import kcenters as kc
+    case = dict(case, init=None)
+    X, metric, _, ids = build_inputs(case)
+    metric.limit[1] = 10 ** 6
+    tri, k2 = case['tri'], case['n_clusters']
+    k1 = max(1, k2 // 2)
+    bad = lambda what: ctx.violation(what, dict(case, family='reuse'))  # noqa
+    ctx.case(dict(case, family='reuse'), nontrivial=True,
+             tags=['reuse-result-as-init', 'init-object=' + case.get('init_container', 'list')])
+    x0 = X.tobytes()
+    r1 = kc.kcenters(X, metric, n_clusters=k1, use_triangle_inequality=tri)
+    snap = lambda r: ([int(i) for i in r.center_indices], snapshot(list(r.centers)),  # noqa
+                      np.asarray(r.assignments).tobytes(), np.asarray(r.distances).tobytes())
+    s1 = snap(r1)
+    how = case.get('init_container', 'list')
+    initobj = np.array(r1.centers) if how == 'array' else (tuple(r1.centers) if how == 'tuple' else r1.centers)
+    i0 = snapshot(initobj)
+    r2 = kc.kcenters(X, metric, n_clusters=k2, init_centers=initobj, use_triangle_inequality=tri)
+    s2 = snap(r2)
+    if snap(r1) != s1:
+        return bad('a second call changed the result object returned by the first call')
+    if snapshot(initobj) != i0 or X.tobytes() != x0:
+        return bad('kcenters modified its init_centers / data argument')
+    r3 = kc.kcenters(X, metric, n_clusters=k2, init_centers=initobj, use_triangle_inequality=tri)
+    if snap(r2) != s2 or snap(r1) != s1 or snapshot(initobj) != i0:
+        return bad('a repeated call with the same argument objects changed an earlier result or an argument')
+    if snap(r3) != s2:
+        return bad('two calls with the same argument objects returned different results')
+    cold = kc.kcenters(X, metric, n_clusters=k2, use_triangle_inequality=tri)
+    sq = case['table']
+    if separated(sq, range(case['n'])) and is_metric(sq):
+        if [int(i) for i in r2.center_indices] != [int(i) for i in cold.center_indices]:
+            return bad('continuing from the first %d centers does not give the farthest-first sequence of a '
+                       'cold run (%s vs %s)' % (k1, list(r2.center_indices), list(cold.center_indices)))
+        if np.asarray(r2.distances).tobytes() != np.asarray(cold.distances).tobytes():
+            return bad('continuing from the first centers gives other distances than a cold run')
+
+
+def huge_check(ctx, data):
+    try:
+        return _huge_check(ctx, data)
+    except Exception as e:  # noqa
+        ctx.violation('kcenters raised %s (%s) on %d frames' % (type(e).__name__, e, data['n']), dict(data))
+
+
+def _huge_check(ctx, data):
+    """more frames than 16-bit indices can address; too large for a table, so the predicates are evaluated
+    with a numpy oracle only (1-d integer points: the euclidean kernel is exact there)"""
+    from enspara.cluster import kcenters as kc
+    r = np.random.default_rng(int(data['seed']))
+    n, k, tri, dtype = data['n'], data['k'], data['tri'], data['dtype']
+    x = r.integers(0, 1000, size=n)
+    far = [int(v) for v in r.permutation(np.arange(65600, n))[:3]]
+    x[far[0]], x[far[1]], x[far[2]] = 5000, -4000, 2500          # unique extreme values, high indices
+    X = x.astype(dtype).reshape(n, 1)
+    init_ids = far[1:] if data['warm'] else None
+    init = None if init_ids is None else X[init_ids].copy()
+    ctx.case(data, nontrivial=True, tags=['model-skipped-huge-n', 'n=65536+', 'dtype=' + dtype,
+                                          'tri' if tri else 'plain', 'warm' if data['warm'] else 'cold'])
+    bad = lambda what: ctx.violation(what, dict(data))  # noqa
+    x0 = X.tobytes()
+    res = kc.kcenters(X, 'euclidean', n_clusters=k, init_centers=init, use_triangle_inequality=tri)
+    other = kc.kcenters(X, 'euclidean', n_clusters=k, init_centers=init, use_triangle_inequality=not tri)
+    if X.tobytes() != x0:
+        return bad('data modified')
+    ci = [int(i) for i in res.center_indices]
+    xf = x.astype(float)
+    cur = np.full(n, np.inf)
+    pre = init_ids or []
+    if ci[:len(pre)] != pre:
+        return bad('supplied initial centers (frames %s) not kept at the front of center_indices %s' % (pre, ci))
+    for c in pre:
+        cur = np.minimum(cur, np.abs(xf - xf[c]))
+    if len(ci) != k:
+        return bad('number of centers %d != n_clusters %d although the radius is positive' % (len(ci), k))
+    last = np.inf
+    for c in ci[len(pre):]:
+        if c != int(np.argmax(cur)):
+            return bad('center %d is not the first farthest frame %d' % (c, int(np.argmax(cur))))
+        if cur.max() > last:
+            return bad('radius grew')
+        last = cur.max()
+        cur = np.minimum(cur, np.abs(xf - xf[c]))
+    if not np.array_equal(np.asarray(res.distances, dtype=float), cur):
+        return bad('returned distances are not the running minimum over the returned centers')
+    if ([int(i) for i in other.center_indices] != ci
+            or not np.array_equal(np.asarray(other.assignments), np.asarray(res.assignments))
+            or not np.array_equal(np.asarray(other.distances), np.asarray(res.distances))):
+        return bad('triangle-inequality shortcut and plain algorithm return different results')
+
+
+def md_check(ctx, data):
+    """md.Trajectory data with the 'rmsd' metric.  mdtraj's float32 RMSD is not reproducible to the last
+    digits between calls (measured: up to 2e-3 on these inputs, self-distance up to 1.4e-2), so this family
+    is checked with a tolerance oracle only; decisions closer than the tolerance are skipped and counted."""
+    import mdtraj as md
+    from enspara.cluster import kcenters as kc
+    tol = 2e-2
+    case = {k: data[k] for k in data if k != 'family'}
+    n, k, init_ids, tri = case['n'], case['n_clusters'], case['init'], case['tri']
+    ref = md_traj(case)
+    Tm = np.array([md.rmsd(ref, ref[c]) for c in range(n)], dtype=float).T        # Tm[f, c]
+    ctx.case(data, nontrivial=True, tags=['model-skipped-md-rmsd', 'md-rmsd', 'tri' if tri else 'plain',
+                                          'cold' if init_ids is None else 'warm', 'via-' + case['via']])
+    bad = lambda what: ctx.violation(what, dict(data))  # noqa
+
+    def run(tri_flag):
+        X = md_traj(case)
+        init = None if init_ids is None else [X[i] for i in init_ids]
+        if case['via'] == 'class':
+            est = kc.KCenters('rmsd', n_clusters=k, cluster_radius=None)
+            est.fit(X, init_centers=init)
+            return est.result_, X
+        return kc.kcenters(X, 'rmsd', n_clusters=k, init_centers=init, use_triangle_inequality=tri_flag), X
+    try:
+        res, X = run(tri)
+        other = run(not tri)[0] if case['via'] == 'function' else None
+    except Exception as e:  # noqa
+        return bad('kcenters on an md.Trajectory raised %s: %s' % (type(e).__name__, e))
+    ci = [int(i) for i in res.center_indices]
+    pre = init_ids or []
+    off = np.abs(Tm - Tm.T).max() + np.abs(np.diag(Tm)).max()
+    sep = (Tm + np.eye(n) * 9).min()
+    if sep < 10 * tol or off > tol:
+        return ctx.skip('md-rmsd frames too close for the tolerance oracle')
+    if ci[:len(pre)] != pre:
+        return bad('supplied initial centers (frames %s) not kept at the front of center_indices %s' % (pre, ci))
+    # centers returned are the frames at the returned indices
+    for c, fr in zip(ci[len(pre):], res.centers[len(pre):]):
+        if not hasattr(fr, 'xyz') or md.rmsd(fr, ref[c])[0] > tol:
+            return bad('returned center is not the frame at the returned index')
+    cur = np.full(n, np.inf)
+    for c in pre:
+        cur = np.minimum(cur, Tm[:, c])
+    if len(ci) != max(k, len(pre)) and len(ci) != min(n, max(k, len(pre))):
+        return bad('number of centers %d, n_clusters %d' % (len(ci), k))
+    last, near_tie = np.inf, False
+    for c in ci[len(pre):]:
+        top = np.sort(cur)[::-1]
+        if cur[c] < top[0] - tol:
+            return bad('center (frame %d, distance %.4f) is not a farthest frame (max %.4f)' % (c, cur[c], top[0]))
+        if len(top) > 1 and np.isfinite(top[0]) and top[0] - top[1] < tol:
+            near_tie = True
+        if np.isfinite(last) and cur.max() > last + tol:
+            return bad('radius grew')
+        last = cur.max()
+        cur = np.minimum(cur, Tm[:, c])
+    if np.abs(np.asarray(res.distances, dtype=float) - cur).max() > tol:
+        return bad('returned distances are not the running minimum over the returned centers')
+    if other is not None:
+        if [int(i) for i in other.center_indices] != ci:
+            if near_tie:
+                return ctx.skip('md-rmsd near-tie between farthest frames')
+            return bad('triangle-inequality shortcut and plain algorithm choose different centers')
+        if np.abs(np.asarray(other.distances, dtype=float) - np.asarray(res.distances, dtype=float)).max() > tol:
+            return bad('triangle-inequality shortcut and plain algorithm return different distances')
+
+
+def gen_md_case(rng):
+    n = int(rng.integers(2, 13))
+    k = int(rng.integers(1, n + 1))
+    init = None
+    if rng.random() < 0.3:
+        init = [int(x) for x in rng.permutation(n)[:int(rng.integers(1, min(n, 3) + 1))]]
+    return {'kind': 'md-rmsd', 'metric': 'rmsd', 'n': n, 'atoms': int(rng.integers(3, 7)),
+            'seed': int(rng.integers(0, 2 ** 31)), 'n_clusters': k, 'cutoff': OMIT if rng.random() < 0.6 else None,
+            'init': init, 'tri': bool(rng.random() < 0.5), 'random_first': False,
+            'via': 'function' if rng.random() < 0.7 else 'class'}
+
+
 def quiet():
     import logging
+    import os
+    os.environ.setdefault('OMP_NUM_THREADS', '1')
     logging.getLogger('enspara').setLevel(logging.ERROR)
     # the compiled kernels use OpenMP; with many idle threads a 6-row call costs 0.3 s of spin-waiting
     from enspara.geometry import libdist  # noqa  (loads libgomp)
@@ -605,7 +989,7 @@ def quiet():
 def run(ctx):
     quiet()
     rng = ctx.rng
-    cases = [gen_case(rng) for _ in range(ctx.n(700, 9000))]
+    cases = [gen_case(rng) for _ in range(ctx.n(550, 9000))]
     cases += [gen_case(rng, big=True) for _ in range(ctx.n(40, 600))]
     # KCenters.fit: only None/int n_clusters, None/value cluster_radius, no shortcut
     for _ in range(ctx.n(150, 1500)):
@@ -618,7 +1002,7 @@ def run(ctx):
             c['cutoff'] = None
         c['via'] = 'class'
         cases.append(c)
-    cases += [gen_offdata_case(rng) for _ in range(ctx.n(120, 1500))]
+    cases += [gen_offdata_case(rng) for _ in range(ctx.n(80, 1500))]
     # the witness of known finding shortcut-offdata-init (Props/C02.lean, lineOff)
     posoff = (0, 1, 3, 2)
     toff = [[abs(a - b) for b in posoff] for a in posoff]
@@ -636,16 +1020,33 @@ def run(ctx):
                     cases.append({'kind': 'line5', 'n': 5, 'table': line5, 'n_clusters': ncl, 'cutoff': cut,
                                   'init': init, 'tri': tri, 'random_first': False, 'via': 'function',
                                   'metric': 'table'})
-    reqs = []
-    for c in cases:
-        table = c['table']
-        need_fuel = c['n_clusters'] in (OMIT, None, 'inf')
-        reqs.append(model_request(c, table, fuel=4 * c['n'] + 12 if need_fuel else None))
-    resp = ctx.driver(reqs)
-    for c, r in zip(cases, resp):
-        process(ctx, c, r)
-    for _ in range(ctx.n(150, 2000)):
-        process(ctx, gen_kernel_case(rng))
+    process_batch(ctx, cases)
+    process_batch(ctx, [gen_kernel_case(rng) for _ in range(ctx.n(150, 2000))])
+    # sizes beyond one byte of labels / centers (model still in the loop)
+    for i in range(ctx.n(4, 40)):
+        process_batch(ctx, [gen_big_case(rng, i)])
+    # sizes beyond 16-bit indices (oracle only)
+    for i in range(ctx.n(3, 12)):
+        huge_check(ctx, {'family': 'huge', 'n': 70000, 'seed': int(rng.integers(0, 2 ** 31)), 'k': 4,
+                         'tri': bool(i % 2), 'warm': bool(i % 3 == 1),
+                         'dtype': ['int64', 'float64', 'int32', 'float32'][i % 4]})
+    # md.Trajectory data with the 'rmsd' metric (the containers with an .xyz)
+    for _ in range(ctx.n(25, 300)):
+        c = gen_md_case(rng)
+        if c['via'] == 'class':
+            c['tri'] = False
+        md_check(ctx, dict(c, family='md'))
+    # call history / object reuse
+    k = 0
+    while k < ctx.n(40, 400):
+        c = gen_case(rng, kind=['graph', 'grid', 'line', 'nearline'][int(rng.integers(0, 4))])
+        if c['n'] < 3:
+            continue
+        c.update(init=None, n_clusters=int(rng.integers(2, c['n'] + 1)), cutoff=OMIT, via='function',
+                 random_first=False, init_container=['list', 'array', 'tuple'][int(rng.integers(0, 3))])
+        c.pop('positional', None)
+        reuse_check(ctx, c)
+        k += 1
     # normalisation of the criteria, exhaustive over the kinds of argument
     norm_scope(ctx)
 
@@ -653,21 +1054,33 @@ def run(ctx):
 def norm_scope(ctx):
     """the None/inf/0 normalisation against the real function on a 3-point line (all kinds of criteria)"""
     table = [[0, 1, 2], [1, 0, 1], [2, 1, 0]]
-    k = 0
+    cases = []
     for ncl in (OMIT, None, 'inf', -1, 0, 1, 2, 3, 4):
         for cut in (OMIT, None, 'inf', [0, 1], [-1, 1], [1, 2], [1, 1], [2, 1], [5, 1]):
             for via in ('function', 'class'):
                 if via == 'class' and (ncl in (OMIT, 'inf') or cut in (OMIT, 'inf')):
                     continue
-                case = {'kind': 'norm-scope', 'n': 3, 'table': table, 'n_clusters': ncl, 'cutoff': cut,
-                        'init': None, 'tri': False, 'random_first': False, 'via': via, 'metric': 'table'}
-                process(ctx, case)
-                k += 1
-    ctx.note('criteria_normalisation_scope', {'cases': k})
+                cases.append({'kind': 'norm-scope', 'n': 3, 'table': table, 'n_clusters': ncl, 'cutoff': cut,
+                              'init': None, 'tri': False, 'random_first': False, 'via': via,
+                              'metric': 'table'})
+                if ncl not in (OMIT,) and cut not in (OMIT,):
+                    cases.append(dict(cases[-1], positional=True))
+    process_batch(ctx, cases)
+    ctx.note('criteria_normalisation_scope', {'cases': len(cases)})
 
 
 def replay(ctx, data):
     quiet()
     case = {k: data[k] for k in data if k in ('kind', 'n', 'table', 'full', 'points', 'dtype', 'metric',
-                                              'n_clusters', 'cutoff', 'init', 'tri', 'random_first', 'via')}
+                                              'n_clusters', 'cutoff', 'init', 'tri', 'random_first', 'via',
+                                              'scale_exp', 'layout', 'xdtype', 'init_container', 'positional', 'seed', 'atoms')}
+    if data.get('family') == 'reuse':
+        reuse_check(ctx, case)
+        return
+    if data.get('family') == 'huge':
+        huge_check(ctx, data)
+        return
+    if data.get('family') == 'md':
+        md_check(ctx, data)
+        return
     process(ctx, case)
